@@ -167,6 +167,29 @@ def run(tier, seed, replay):
     for k in range(10 if tier == 'quick' else 40):
         cid = 'c12c_%d' % k
         gc = None
+        if k % 10 == 0:
+            # the new refcount block gets the LAST entry of a refcount-table block (index 63 with 512-byte blocks): an
+            # image whose first 63 refcount blocks are full (leaked clusters, no data) makes the next allocation need it
+            try:
+                cs9 = 512
+                cl = {g0: ('data', foreign.cluster_bytes(rng, cs9, 'blocks')) for g0 in rng.sample(range(0, 40), 4)}
+                desc = qimg.ImageDesc(version=3, cluster_bits=9, refcount_order=6, size=200 * cs9, clusters=cl)
+                desc.leak_to = 63 * 64 - rng.choice([0, 1, 3])
+                pths, _ = foreign.write_images(dcr, cid, [desc])
+                g = hist.Geom(9, 6, desc.size, 9, (9, 2 << 9), (9, rng.choice([2, 8]) << 9), punch=1)
+                ops, tag = [], 1
+                for _ in range(rng.randrange(3, 7)):
+                    ops.append(('W', rng.randrange(50, 190) * cs9, rng.choice([1, 2, 5]) * cs9, tag))
+                    tag += 1
+                    if rng.random() < 0.6:
+                        ops.append(('F',))
+                ops.append(('F',))
+                lines = [hist.op_line(o) for o in ops] + ['L lg']
+                text = 'case %s\nimage file %s\nopt punch=1\nX init\nopen %s\n%s\nend\n' % (cid, pths[0], g.params(), '\n'.join(lines))
+                ccases.append({'cid': cid, 'g': g, 'ops': ops, 'text': text, 'kind': 'rtend-crash', 'tail': None})
+                continue
+            except ValueError:
+                pass
         for _ in range(20):
             gc = growth_case(rng, dcr, cid, tier)
             if gc is not None and gc['kind'] in ('refblock', 'l1', 'tail') and gc['g'].size >> gc['g'].cb <= 400 and (not gc['tail'] or gc['tail'][0] <= 64 * gc['g'].cs):
